@@ -167,7 +167,7 @@ fn small_scope(id: &str, max_n: usize) -> Vec<HCase> {
                     for v in id_choices(n) {
                         let mut ops = scenario_prefix(n, base, snap);
                         match id {
-                            "C10" => {
+                            "C10" | "C11" | "C18" => {
                                 ops.push(Op::AddSnapshot { c: 0, version: v.clone(), data: d(700) });
                                 // and once more: the same request again must now be declined or
                                 // keep replacing consistently (monotonicity over a sequence)
@@ -225,7 +225,9 @@ pub fn run(id: &str, tier: Tier, seed: u64) -> Report {
     }
 
     // complete small-scope enumerations
-    if id == "C10" || id == "C08" {
+    if id == "C10" || id == "C08" || id == "C11" || id == "C18" {
+        // (C11: the same constructed states - every snapshot the server keeps, in every one of
+        // them, must be a usable base, including chains started from another client's version)
         let max_n = if id == "C10" { tier.pick(9, 11) } else { tier.pick(6, 9) };
         let cases = small_scope(id, max_n);
         let r = engine::enumerate(id, "history", cases, |hc, st| check(id, hc, st));
@@ -245,9 +247,9 @@ pub fn run(id: &str, tier: Tier, seed: u64) -> Report {
 
     let p = params(id, tier);
     let total: u64 = match id {
-        "C07" => tier.pick(2500, 60_000),
-        "C18" => tier.pick(3000, 80_000),
-        _ => tier.pick(4000, 100_000),
+        "C07" => tier.pick(6000, 60_000),
+        "C18" => tier.pick(9000, 80_000),
+        _ => tier.pick(12_000, 100_000),
     };
     let r = engine::explore(id, "history", seed, total, || hcase(&p, 25), |hc: &HCase, st| check(id, hc, st));
     rep.absorb("random-histories", r);
